@@ -3,10 +3,10 @@ from .core import BASE_TRUST, LEAN, Problem
 
 META = {
     "category": "proof",
-    "text": "PARTIAL. Lean 4 proof that the Discard discipline makes the value pool safe (heap + free list + clients: for ALL operation sequences obeying 'discard only what you alone reference, never touch it afterwards', every read returns the value the reader was given; invariant: no address both free and live) with a counter-witness for a premature discard; every value.Discard(x) call site of lib/query and lib/value and every assignment of lib/query that writes through a parser.* value is regenerated from /repo on every run (go/ast + go/types) and checked by `decide` (all sites fresh, not used afterwards, not escaping; the value.To* conversions return value.New* results on every path; theorems ast_readonly, cells_never_overwritten, scope_closed_once, getters_return_copies, no_double_discard: NO write into a shared syntax tree, no store into an existing (slice-shared) table cell, no scope block closed both by a function and by its callee, every Get* accessor of a stored view returns a copy; pre-finding F8 was repaired in /repo by commit 02f8662 and stays watched: a new shared write breaks ast_readonly and is reported as astwrite:<file>:<function>:<lhs>, a bad Discard as discard:<file>:<function>:<var>:<reason>, a cell overwrite as cellwrite:…, a double close as doubleclose:…, a conversion handing back its argument as conversion:value.<To*>:notFresh). TRUSTED, not proved: the step 'syntactic fact => behaviour of the running program' (callees are not analysed), sync.Pool as a free list. Cross-checked on every run: generated statements over all built-in scalar functions, operators and clauses evaluated twice (plain / WHILE / user-defined function / PREPARE+EXECUTE), syntax trees printed before and after execution, tables / cursor rows / variables read again; half of the workload processes run with the Discard-poisoning hook H2 switched on and every result cell, printed syntax tree, syntax-tree literal, variable, cursor row and re-read table cell is searched for the poison values (law poisoned_read)",
+    "text": "PARTIAL. Lean 4 proof that the Discard discipline makes the value pool safe (heap + free list + clients: for ALL operation sequences obeying 'discard only what you alone reference, never touch it afterwards', every read returns the value the reader was given; invariant: no address both free and live) with a counter-witness for a premature discard; every value.Discard(x) call site of lib/query and lib/value and every assignment of lib/query that writes through a parser.* value is regenerated from /repo on every run (go/ast + go/types) and checked by `decide` (all sites fresh, not used afterwards, not escaping; the value.To* conversions return value.New* results on every path; theorems ast_readonly, cells_never_overwritten, scope_closed_once, getters_return_copies, no_double_discard: NO write into a shared syntax tree, no store into an existing (slice-shared) table cell, no scope block closed both by a function and by its callee, every Get* accessor of a stored view returns a copy; pre-finding F8 was repaired in /repo by commit 02f8662 and stays watched: a new shared write breaks ast_readonly and is reported as astwrite:<file>:<function>:<lhs>, a bad Discard as discard:<file>:<function>:<var>:<reason>, a cell overwrite as cellwrite:…, a double close as doubleclose:…, a conversion handing back its argument as conversion:value.<To*>:notFresh). TRUSTED, not proved: the step 'syntactic fact => behaviour of the running program' (callees are not analysed), sync.Pool as a free list. Cross-checked on every run: generated statements over all built-in scalar functions, operators and clauses evaluated twice (plain / WHILE / user-defined function / PREPARE+EXECUTE), syntax trees printed before and after execution, tables / cursor rows / variables read again; the statements the cross-check executes are DERIVED from the grammar: every statement kind that lib/parser/parser.y builds / Processor.ExecuteStatement dispatches on and every operand position (Node.Field filled from a grammar symbol deriving an arbitrary scalar expression: LIMIT n / n PERCENT / WITH TIES, OFFSET, FETCH ABSOLUTE n, SET @%ENV / @@flag, ADD / REMOVE flag element, ECHO / PRINT / PRINTF, CHDIR, SOURCE, EXECUTE … USING, TRIGGER ERROR, function / aggregate / list / analytic arguments, JSON_ROW, table functions, CASE, IN lists, BETWEEN, LIKE, SUBSTRING … FROM … FOR, parameter defaults, DML values, column defaults, table attributes …) is regenerated on every run into Gen/StmtKinds.lean together with the workloads harness/cmd/c14/workloads.go declares; theorems every_statement_kind_has_workload / every_operand_slot_has_workload (decide) fail for a kind or position without a workload (reported workload:missing:…), and the harness checks on every run that the hole of each workload really is at the declared position of the parsed tree (law workload_slot_mismatch) and that the workload succeeds for some operand (workload_never_succeeds); each workload is run with operands of every value type (integer, float, string, numeric string, datetime, boolean, NULL) held as tree literal, as variable, as cursor-fetched variable, as cell of a typed temporary table and as column reference, executed twice from ONE syntax tree, and after each execution (and after fresh allocations of every pooled type, so that the real pool re-issues an object released too early) all variables, the operand table, the cursor row and every literal of the statement's own tree are read again and compared with their first reading (laws reread:variable / reread:table / reread:cursor / ast_unchanged / repeat_eval:same_tree, under poisoning poisoned_read); half of the workload processes run with the Discard-poisoning hook H2 switched on and every result cell, printed syntax tree, syntax-tree literal, variable, cursor row and re-read table cell is searched for the poison values (law poisoned_read)",
     "design_ref": "DESIGN.md section 5, C14",
     "note": "trusted: Lean kernel (propext, Classical.choice, Quot.sound only), the extractor extract/discardfacts (conservative, syntactic), sync.Pool modelled as a free list, harness generators. Hook H2 is built (/repo 3417236, build tag verif, VERIF_POISON_DISCARD=1): in every other workload process Discard overwrites the object with a recognisable poison and never re-issues it, so a read of a discarded object is reported (law poisoned_read) the first time it happens, without waiting for the pool to re-issue the object; what H2 does not give: paths the generators never execute, and the NaN poison of a Float is recognised on values (result views, syntax-tree literals, re-read tables), not in printed text",
-    "technique": "Lean 4 machine-checked proof over a heap/pool model + facts regenerated from the Go source checked by kernel evaluation + differential self-comparison (evaluate twice / read again) on the real code",
+    "technique": "Lean 4 machine-checked proof over a heap/pool model + facts regenerated from the Go source and the grammar checked by kernel evaluation + differential self-comparison (evaluate twice / read again; statement and operand corpus derived from parser.y) on the real code",
 }
 
 DISCARD_RE = re.compile(r'⟨"([^"]*)", (\d+), "([^"]*)", "((?:[^"\\]|\\.)*)", (true|false), (true|false), (true|false), "((?:[^"\\]|\\.)*)"⟩')
@@ -51,6 +51,20 @@ def parse_list(name):
     return out
 
 
+def parse_stmtkinds():
+    """the string lists of Gen/StmtKinds.lean"""
+    p = LEAN / "Csvq" / "Gen" / "StmtKinds.lean"
+    out = {}
+    if p.exists():
+        txt = p.read_text()
+        for m in re.finditer(r"^def (\w+) : List String := \[(.*?)\]\n\n", txt, re.M | re.S):
+            out[m.group(1)] = re.findall(r'"((?:[^"\\]|\\.)*)"', m.group(2))
+        m = re.search(r"^def operandSlotSymbols : .*? := \[(.*?)\]\n\n", txt, re.M | re.S)
+        if m:
+            out["operandSlotSymbols"] = re.findall(r'\("([^"]*)", "([^"]*)"\)', m.group(1))
+    return out
+
+
 def run(run):
     q = run.tier == "quick"
     run.assumptions += [
@@ -64,6 +78,21 @@ def run(run):
     argv = ["go", "run", "-C", "extract/discardfacts", "."]
     ok1 = run.regen("discardfacts", argv + ["discardfacts"], "Csvq/Gen/DiscardFacts.lean")
     ok2 = run.regen("astwritefacts", argv + ["astwritefacts"], "Csvq/Gen/AstWriteFacts.lean")
+
+    ok3 = run.regen("stmtkinds", argv + ["stmtkinds"], "Csvq/Gen/StmtKinds.lean")
+    # statement kinds / operand positions of the grammar that the dynamic cross-check has no workload for
+    # (Csvq.C14.every_statement_kind_has_workload, every_operand_slot_has_workload)
+    missing_workloads = []
+    sk = parse_stmtkinds() if ok3 else {}
+    if sk:
+        have_k, have_s = set(sk.get("workloadStatementKinds", [])), set(sk.get("workloadSlots", []))
+        for k in sorted(set(sk.get("grammarStatementKinds", []) + sk.get("executedStatementKinds", [])) - have_k):
+            missing_workloads.append("workload:missing:statement:" + k)
+        for k in sorted(set(sk.get("operandSlots", [])) - have_s):
+            missing_workloads.append("workload:missing:slot:" + k)
+        for sg in missing_workloads:
+            run.problems.append(Problem("direct", sg, {"what": "the grammar (lib/parser/parser.y) / Processor.ExecuteStatement has a statement kind or operand position for which harness/cmd/c14/workloads.go declares no workload: the dynamic cross-check (executed twice, operands of every type from tree literal / variable / cursor / table cell, everything re-read) does not reach it",
+                                                       "filled_from": dict(sk.get("operandSlotSymbols", [])).get(sg.rsplit(":", 1)[1], "")}, concrete=False, signature=sg))
 
     dfacts = parse_discard() if ok1 else []
     shared, local = parse_astwrites() if ok2 else ([], [])
@@ -128,7 +157,7 @@ def run(run):
             run.problems.append(Problem("direct", sg, {"what": "the current block / node of a scope is handed back to its pool here and again in the callee that receives the same scope: the pool will issue one block to two live scopes",
                                                        "site": "%s:%d" % (f["file"], f["line"]), "how": f["how"]}, concrete=False, signature=sg))
 
-    if ok1 and ok2:
+    if ok1 and ok2 and ok3:
         run.obligations_for(["Csvq.Props.C14"])
 
     before = len(run.problems)
@@ -162,6 +191,8 @@ def run(run):
         "cell_writes_and_double_closes": other_sites, "discard_sites": len(dfacts), "conversions_not_fresh": conv_bad, "double_discards": dbl, "discard_sites_outside_discipline": sorted(bad_sites),
         "ast_writes_shared": sorted(ast_sites), "ast_writes_local_copy_or_fresh": len(local),
         "static_sites_confirmed_dynamically": sorted(confirmed),
+        "grammar_statement_kinds": len(sk.get("grammarStatementKinds", [])), "executed_statement_kinds": len(sk.get("executedStatementKinds", [])),
+        "grammar_operand_slots": len(sk.get("operandSlots", [])), "workloads_missing": missing_workloads,
     }
     if dfacts:
         run.cov["samples"] = ["discard site %s:%d %s(%s) fresh=%s usedAfter=%s escapes=%s" % (f["file"], f["line"], f["fn"], f["var"], f["fresh"], f["usedAfter"], f["escapes"])
@@ -169,10 +200,10 @@ def run(run):
                              ["ast write %s:%d %s %s (%s)" % (f["file"], f["line"], f["fn"], f["lhs"], f["how"]) for f in (shared + local)[:2]] + run.cov["samples"]
     return run.finish(
         level="proof",
-        rule="static: every value.Discard call site of lib/query and lib/value and every assignment / copy / sort of lib/query reaching through a parser.* value, checked by kernel evaluation; dynamic: expressions generated over every scalar function of the Functions map (argument types found by probing), arithmetic, comparison, logic, CASE, IN, BETWEEN, LIKE, IS, ANY/ALL, casts, in SELECT / WHERE / GROUP BY+aggregates / DISTINCT / analytic functions / JOIN / subqueries / UNION, each evaluated twice as plain statement, WHILE body, user-defined function body and prepared statement over 240 rows at @@CPU 4, plus re-reading tables, cursor rows and variables after unrelated statements, alternately with and without Discard poisoning (a fixed corpus incl. COUNT(*) OVER, NTH_VALUE, ORDER BY / PARTITION BY on text columns, comma-separated FROM lists and functions over datetime-typed temp-view cells / variables runs first in both modes; the generated kinds include those two shapes as well, plus: rows held by a cursor / derived temporary view / variable re-read after UPDATE, DELETE, REPLACE, ALTER on the base table and the base table after ROLLBACK (laws reread:held_rows, rollback_restores); adding a column (JSON_OBJECT over column references in every order, NOW, list aggregates WITHIN GROUP, analytic list functions, generated expressions) must leave the other columns of the result unchanged (law extra_column_changes_others); a statement that reads one WITH table twice (two scalar sub-queries, outer query + sub-query, UNION ALL) after an in-place step of the first read must give for the second read what a fresh read gives (law reread:inline_table); every built-in with NULL in each argument position on the main goroutine followed by a probe of the value pools (no object handed to two allocations) and, with poisoning on, by the hook's log of Discards of already discarded objects (law double_discard); DISPOSE of variables whose value object is shared with a table cell / cursor row / literal of a loop or function body / another variable, then same-type allocations and a re-read; unary plus / minus over every numeric class compared with multiplication by 1 / -1 and kept in variables across further allocations (law unary_identity); UPDATE … FROM / DELETE … FROM over one-to-many joins followed by single-record statements whose effect identifies the record touched (law dml_targets); user-defined aggregates followed by a probe of csvq's block / node pools (pairwise distinct, empty: pool_no_alias) and by a function with nested blocks compared with its results in the fresh process (repeat_eval:after_uda)); non-trivial = distinct (kind, statement form, error?, result-length class)",
+        rule="static: every value.Discard call site of lib/query and lib/value and every assignment / copy / sort of lib/query reaching through a parser.* value, checked by kernel evaluation; dynamic: expressions generated over every scalar function of the Functions map (argument types found by probing), arithmetic, comparison, logic, CASE, IN, BETWEEN, LIKE, IS, ANY/ALL, casts, in SELECT / WHERE / GROUP BY+aggregates / DISTINCT / analytic functions / JOIN / subqueries / UNION, each evaluated twice as plain statement, WHILE body, user-defined function body and prepared statement over 240 rows at @@CPU 4, plus re-reading tables, cursor rows and variables after unrelated statements, alternately with and without Discard poisoning (a fixed corpus incl. COUNT(*) OVER, NTH_VALUE, ORDER BY / PARTITION BY on text columns, comma-separated FROM lists and functions over datetime-typed temp-view cells / variables runs first in both modes; the generated kinds include those two shapes as well, plus: rows held by a cursor / derived temporary view / variable re-read after UPDATE, DELETE, REPLACE, ALTER on the base table and the base table after ROLLBACK (laws reread:held_rows, rollback_restores); adding a column (JSON_OBJECT over column references in every order, NOW, list aggregates WITHIN GROUP, analytic list functions, generated expressions) must leave the other columns of the result unchanged (law extra_column_changes_others); a statement that reads one WITH table twice (two scalar sub-queries, outer query + sub-query, UNION ALL) after an in-place step of the first read must give for the second read what a fresh read gives (law reread:inline_table); every built-in with NULL in each argument position on the main goroutine followed by a probe of the value pools (no object handed to two allocations) and, with poisoning on, by the hook's log of Discards of already discarded objects (law double_discard); DISPOSE of variables whose value object is shared with a table cell / cursor row / literal of a loop or function body / another variable, then same-type allocations and a re-read; unary plus / minus over every numeric class compared with multiplication by 1 / -1 and kept in variables across further allocations (law unary_identity); UPDATE … FROM / DELETE … FROM over one-to-many joins followed by single-record statements whose effect identifies the record touched (law dml_targets); user-defined aggregates followed by a probe of csvq's block / node pools (pairwise distinct, empty: pool_no_alias) and by a function with nested blocks compared with its results in the fresh process (repeat_eval:after_uda)); grammar-derived workloads (workloads.go: one or more templates per statement kind and per operand position of parser.y, the list compared with the regenerated grammar facts by Csvq.C14.every_statement_kind_has_workload / every_operand_slot_has_workload; every template x operand type {integer, float, string, numeric string, datetime, boolean, NULL} x holder {tree literal, variable, cursor-fetched variable, table cell via sub-query, column reference}, executed twice from one tree with GOMAXPROCS 1, pooled allocations and a full re-read of variables / operand table / cursor row / tree literals after each execution; every built-in scalar function argument by argument the same way (a sample per run in the quick tier, all in the thorough tier)); non-trivial = distinct (kind, statement form, error?, result-length class)",
         trusted_base=BASE_TRUST + [
-            "extract/discardfacts: conservative syntactic facts (go/ast + go/types); callees are not analysed",
+            "extract/discardfacts: conservative syntactic facts (go/ast + go/types); callees are not analysed; mode stmtkinds reads the statement kinds / operand positions off the actions of parser.y (composite literals, fields filled from value symbols) and the workload table off harness/cmd/c14/workloads.go",
             "sync.Pool modelled as a free list (Csvq/Model/Pool.lean)"],
-        checker_cmd="cd /verif && go run -C extract/discardfacts . discardfacts > lean/Csvq/Gen/DiscardFacts.lean && go run -C extract/discardfacts . astwritefacts > lean/Csvq/Gen/AstWriteFacts.lean && cd lean && lake build Csvq.Props.C14 && lake env lean <#print axioms for every theorem>",
+        checker_cmd="cd /verif && go run -C extract/discardfacts . discardfacts > lean/Csvq/Gen/DiscardFacts.lean && go run -C extract/discardfacts . astwritefacts > lean/Csvq/Gen/AstWriteFacts.lean && go run -C extract/discardfacts . stmtkinds > lean/Csvq/Gen/StmtKinds.lean && cd lean && lake build Csvq.Props.C14 && lake env lean <#print axioms for every theorem>",
         extra_cov=extra,
     )
